@@ -235,21 +235,30 @@ def close (l : Loop α) : Loop α × Res Unit :=
         | (_, .panic p) => (l, .panic p)
         | (l5, .ok _) => (l5, .ok ())
 
-/-- what one edge `segment_ab` adds to `n_cross` in `test_point` (0 or 1) -/
+/-- the closure `on_ray` of `test_point`: the vertex is within `SNAP` of the ray (not of its supporting line) -/
+def onRay (point d : V3 α) (p : V3 α) : Bool :=
+  let snap : α := 1e-8
+  let d2 := d.dot d
+  let w := p - point
+  let t := (w.dot d) / d2
+  inUnitClosed t && ((w - d.smul t).length <=. snap)
+
+/-- what one edge `segment_ab` adds to `n_cross` in `test_point` (0 or 1): whether the ray passes through an end of the edge
+    is decided per vertex (`onRay`), so the two edges meeting at a vertex agree about it -/
 def crossingIncrement (normal d : V3 α) (ray segmentAB : Segment α) : Nat :=
-  match segmentAB.getIntersectionPt ray with
-  | some (tA, tB) =>
-    let snap : α := 1e-8
-    if inUnitClosed tB && ((-snap) <=. tA && tA <=. (1 : α) + snap) then
-      if tA <. snap then
-        let sideNormal := d.cross segmentAB.asVector
-        if sideNormal.isSameDirection normal then 1 else 0
-      else if tA <. (1 : α) - snap then 1
-      else
-        let sideNormal := d.cross segmentAB.asReversedVector
-        if sideNormal.isSameDirection normal then 1 else 0
-    else 0
-  | none => 0
+  let aOn := onRay ray.start d segmentAB.start
+  let bOn := onRay ray.start d segmentAB.stop
+  if aOn && bOn then 0
+  else if aOn then
+    let sideNormal := d.cross segmentAB.asVector
+    if sideNormal.isSameDirection normal then 1 else 0
+  else if bOn then
+    let sideNormal := d.cross segmentAB.asReversedVector
+    if sideNormal.isSameDirection normal then 1 else 0
+  else
+    match segmentAB.getIntersectionPt ray with
+    | some (tA, tB) => if inUnitClosed tB && inUnitClosed tA then 1 else 0
+    | none => 0
 
 /-- the `for i in 0..n` loop of `test_point` (with its early returns) -/
 def testPointLoop (l : Loop α) (point d : V3 α) (ray : Segment α) (n : Nat) : Nat → Nat → Nat → Res Bool
